@@ -732,9 +732,16 @@ def _arg_combine(data, axis, argfunc, keepdims=False):
 
 def arg_chunk(func, argfunc, x, axis, offset_info):
     arg_axis = None if len(axis) == x.ndim or x.ndim == 1 else axis[0]
-    vals = func(x, axis=arg_axis, keepdims=True)
-    arg = argfunc(x, axis=arg_axis, keepdims=True)
-    if x.ndim > 0:
+    empty = _no_candidates(x, arg_axis) if x.size == 0 else None
+    if empty is not None:
+        # A block with nothing along the reduced axis has no candidate to
+        # offer: zero-length values and positions, which the combine step
+        # concatenates away.
+        vals, arg = empty, np.empty_like(empty, dtype=np.intp)
+    else:
+        vals = func(x, axis=arg_axis, keepdims=True)
+        arg = argfunc(x, axis=arg_axis, keepdims=True)
+    if empty is None and x.ndim > 0:
         if arg_axis is None:
             offset, total_shape = offset_info
             ind = np.unravel_index(arg.ravel()[0], x.shape)
